@@ -7,7 +7,7 @@ declare -A EXPECT=(
  [m07]="C02" [m08]="C03 C04" [m09]="C03" [m10]="C09" [m11]="C10" [m12]="C10"
  [m13]="C11" [m14]="C11" [m15]="C08" [m16]="C05" [m17]="C05" [m18]="C06" [m19]="C06 C01"
  [m20]="C02" [m21]="C12" [m22]="C15" [m23]="C14" [m24]="C16" [m25]="C17" [m26]="C05"
- [m27]="C14" [m28]="C01 C04" [m29]="C10" [m30]="C12" [m31]="C12" [m32]="C04" [m33]="C04"
+ [m27]="C14" [m28]="C01 C04" [m29]="C10" [m30]="C12" [m31]="C12" [m32]="C04" [m33]="C04" [m34]="C01"
 )
 out=mutants/RESULTS.txt
 : > "$out.tmp"
